@@ -38,6 +38,9 @@ def run(tier):
             v = toks[k]
             if rng.random() < 0.1:
                 v = rng.choice(["EMPTY", "NIL"])
+            # systematically: tables whose FIRST / LAST record carries the zero checksum of an empty / nil value (n >= 2: others stay protected)
+            if n >= 2 and ((ti % 4 == 1 and k == 0) or (ti % 4 == 2 and k == n - 1)):
+                v = ["EMPTY", "NIL"][(ti // 4) % 2]
             writes.append({"k": k, "v": v, "fault": ""})
         size_guess = sum(len(vals[t]) for t in toks) + 12 * n
         step = 1 if (thorough and size_guess < 4000) or size_guess < 250 else max(1, size_guess // (1200 if thorough else 120))
